@@ -10,6 +10,7 @@ import JominiModel.Spec.WriterArrays
 import JominiModel.Proofs.WriterArrays
 import JominiModel.Proofs.TextTapeFaithful3
 import JominiModel.Proofs.WriterGenParse
+import JominiModel.Proofs.WriterBinary
 /-
 C15 — Well-formed sequences of writer calls parse back to exactly what was written.
 Only property theorems live here; helper lemmas are in `Proofs/Writer.lean`, reference
@@ -455,6 +456,52 @@ example : TextTape.parse (run (gcallsF (.cons (.unq [97]) none
     .ok [.unquoted ⟨39, [97]⟩, .array 9 false, .object 5 false, .unquoted ⟨30, [98]⟩, .unquoted ⟨28, [49]⟩, .endTok 2,
          .unquoted ⟨22, [50]⟩, .array 8 false, .endTok 7, .endTok 1, .unquoted ⟨14, [99]⟩, .header ⟨12, [114, 103, 98]⟩,
          .array 15 false, .unquoted ⟨5, [49]⟩, .unquoted ⟨3, [50]⟩, .endTok 12] false := by
+  decide +kernel
+
+/-- `write_binary` forwarding: for EVERY `BinaryToken` kind and every writer state, `write_binary tok`
+does exactly what the direct call `binCall tok` does (Array → `write_array_start`, Object →
+`write_object_start`, MixedContainer → `start_mixed_mode`, Equal → `write_operator(=)`, End →
+`write_end`, Bool / U32 / U64 / I64 / I32 / Quoted / Unquoted → the typed call, F32 / F64 → the float
+write, Token → `__unknown_0x<hex>` unquoted, Rgb → `write_rgb`): same result, same error.  Hence a
+call list that uses `write_binary` anywhere behaves — final state, bytes, and what is observable
+after every call — exactly like the list with the direct calls (`unbin`), and every parse-back
+theorem above transfers to it. -/
+theorem C15_write_binary_eq_calls :
+    (∀ (s : State) (t : BinTok), step s (.binary t) = step s (binCall t)) ∧
+    (∀ (cs : List Call) (s : State), run (cs.map unbin) s = run cs s) :=
+  ⟨step_binary, run_unbin⟩
+
+/-- the flat-document parse-back for a call list written entirely through `write_binary` -/
+example (fs : List FField) (cs : List Call) (c : UInt8) (f : Nat) (h : cs.map unbin = fcalls fs)
+    (hv : ∀ x ∈ fs, x.key.Valid ∧ x.val.Valid)
+    (hb : TextTape.hasBom (run cs (State.init c f)).1.out = false) :
+    ∃ T, TextTape.parse (run cs (State.init c f)).1.out = .ok T false ∧
+      T.map TextTape.Tok.erase = TextTape.contentFlat (fs.map fun x => x.item.content) := by
+  rw [← C15_write_binary_eq_calls.2 cs, h] at hb ⊢
+  exact C15_parse_back_flat fs c f hv hb
+
+/-- `write_rgb` is `write_header("rgb")` followed by an array of `write_u32` components … -/
+theorem C15_rgb_eq_calls (s : State) (c : Rgb) :
+    step s (.rgb c) = .ok (run (.header rgbBytes :: gcallsV (rgbVal c)) s).1 :=
+  rgb_eq_calls s c
+
+/-- …so root fields whose values are colours written with `write_rgb` (3 or 4 components, any
+operator, any indent configuration with a blank indent byte) produce `key<sep>rgb {`, the
+components on one indented line, `}`, and parse back to exactly `key [op] Header(rgb) Array{end}
+r g b [a] End` per field. -/
+theorem C15_rgb_parse_back (l : List (SCall × Option Writer.Op × Rgb)) (c : UInt8) (f : Nat)
+    (hc : TextTape.isBlank c = true) (hk : ∀ x ∈ l, x.1.Valid)
+    (hb : TextTape.hasBom (run (rgbCallsF l) (State.init c f)).1.out = false) :
+    ∃ T, TextTape.parse (run (rgbCallsF l) (State.init c f)).1.out = .ok T false ∧
+      T.map TextTape.Tok.erase = TextTape.ktapeF (gcontentF (rgbFields l)) 0 := by
+  rw [run_rgbCallsF] at hb ⊢
+  exact C15_parse_back_containers (rgbFields l) c f hc (rgbFields_opened l) (rgbFields_good l hk) hb
+
+/-- `start=rgb { 10 9 8 }` then `end=rgb { 7 6 5 4 }` (the doc example of `write_rgb`) -/
+example : (run (rgbCallsF [(.unq [115], none, ⟨10, 9, 8, none⟩), (.unq [101], none, ⟨7, 6, 5, some 4⟩)])
+      (State.init 32 2)).1.out =
+    [115, 61, 114, 103, 98, 32, 123, 10, 32, 32, 49, 48, 32, 57, 32, 56, 10, 125, 10,
+     101, 61, 114, 103, 98, 32, 123, 10, 32, 32, 55, 32, 54, 32, 53, 32, 52, 10, 125] := by
   decide +kernel
 
 /-
